@@ -72,8 +72,14 @@ Record evolves (s s2 : st) : Prop := {
   ev_wf : heap_wf (heap s2);
   ev_new : forall y c, length (heap s) <= y -> cell_at s2 y = Some c ->
                        forall k, In k (all_kids c) -> k < length (heap s) -> reach s k;
-  ev_roots : forall r, In r (roots s2) -> r < length (heap s) -> In r (roots s)
+  ev_roots : forall r, In r (roots s2) -> r < length (heap s) -> reach s r
 }.
+
+Lemma root_reach s r : In r (roots s) -> r < length (heap s) -> reach s r.
+Proof.
+  intros Hr Hlt. exists r. split; auto.
+  destruct (nth_error (heap s) r) eqn:E; [eapply p_refl; eauto|apply nth_error_None in E; lia].
+Qed.
 
 Lemma evolves_mono s s2 x : evolves s s2 -> x < length (heap s) -> reach s2 x -> reach s x.
 Proof.
@@ -83,7 +89,7 @@ Proof.
   { intros y c Hy Hc. apply (Hnew y c Hy). unfold cell_at. now rewrite He. }
   destruct (path_ext_old s ext Hwf Hnew' r x Hp Hx) as [Ho Hn].
   destruct (Nat.lt_ge_cases r (length (heap s))) as [Hlt|Hge].
-  - exists r. split; auto.
+  - destruct (Hroots r Hr Hlt) as [r0 [Hr0 Hp0]]. exists r0. split; auto. eapply path_trans; eauto.
   - auto.
 Qed.
 
@@ -98,7 +104,7 @@ Proof.
   - now rewrite Hh.
   - intros y c Hy Hc. unfold cell_at in Hc. rewrite Hh in Hc.
     assert (y < length (heap s)) by (apply nth_error_Some; congruence). lia.
-  - auto.
+  - intros r Hin Hlt. apply root_reach; auto.
 Qed.
 
 Lemma reach_kid s a c k : Inv0 s -> reach s a -> cell_at s a = Some c -> In k (all_kids c) -> reach s k.
@@ -131,16 +137,16 @@ Section Evolve.
       rewrite nth_error_app2 in Hc by auto. destruct (y - length (heap s)) as [|m]; simpl in Hc.
       + injection Hc as <-. unfold all_kids in Hin; simpl in Hin. apply Hk; auto.
       + destruct m; discriminate.
-    - intros r Hr Hlt. unfold roots in *; simpl in Hr. now rewrite <- Hv.
+    - intros r Hr Hlt. apply root_reach; auto. unfold roots in *; simpl in Hr. now rewrite <- Hv.
   Qed.
 
-  (* binding a new node to a variable *)
-  Lemma evolves_bind s s' dst a : evolves s s' -> length (heap s) <= a -> evolves s (set_var s' dst (Some a)).
+  (* binding the result to a variable: a new node, or (as_obj) a node that was reachable *)
+  Lemma evolves_bind s s' dst a : evolves s s' -> (a < length (heap s) -> reach s a) -> evolves s (set_var s' dst (Some a)).
   Proof.
     intros [Hh Hwf Hnew Hroots] Ha. constructor; simpl; auto.
     intros r Hr Hlt. unfold roots in Hr; simpl in Hr. apply roots_set_nth in Hr as [Hr|E].
     - apply Hroots; auto.
-    - injection E as <-. lia.
+    - injection E as <-. auto.
   Qed.
 
   Lemma alloc_evolves s s1 c o ps ks s' a dst : Inv0 s1 -> heap s1 = heap s -> vars s1 = vars s ->
@@ -148,7 +154,7 @@ Section Evolve.
     alloc H ct s1 c o ps ks = Some (s', a) -> evolves s (set_var s' dst (Some a)).
   Proof.
     intros Hs1 Hh Hv Hk Ea. apply evolves_bind; [eapply alloc_evolves0; eauto|].
-    apply alloc_shape in Ea as [i [_ [-> _]]]. rewrite Hh. lia.
+    intro Hlt. exfalso. apply alloc_shape in Ea as [i [_ [-> _]]]. rewrite Hh in Hlt. lia.
   Qed.
 
   Lemma resolved_kids_reach s ls l : mapO (resolve s) ls = Some l ->
@@ -238,16 +244,27 @@ Section Evolve2.
       assert (y < length (heap s')) by (apply cell_at_lt in Hc; auto).
       destruct (Hr y) as [c' [Hc' [Hkids _]]]; [lia|]. rewrite Hc in Hc'. injection Hc' as <-.
       apply Hkids in Hk. lia.
-    - intros r Hin Hlt. unfold roots in *. now rewrite <- Hv.
+    - intros r Hin Hlt. apply root_reach; auto. unfold roots in *. now rewrite <- Hv.
+  Qed.
+
+  (* one as_obj call (the code in /repo) started in a state whose registered nodes are all reachable *)
+  Lemma DP_evolves s s' : RInv s -> DP s s' -> evolves s s'.
+  Proof.
+    intros [Hs Hr] Hd. constructor.
+    - now apply DP_hext.
+    - apply inv_wf. apply Hd.
+    - intros y c Hy Hc k Hk Hlt. destruct (dp_new _ _ Hd y c Hy Hc k Hk Hlt) as [j Hj].
+      apply reachable_reach. eauto.
+    - intros r Hin Hlt. apply root_reach; auto. unfold roots in *. now rewrite <- (dp_vars _ _ Hd).
   Qed.
 
   Lemma roots_drop s v r : In r (roots (set_var s v None)) -> In r (roots s).
   Proof. unfold roots; simpl. intro Hin. apply roots_set_nth in Hin as [Hin|E]; [auto|discriminate]. Qed.
 
-  Lemma step_raw_evolves s o : Inv0 s -> evolves s (fst (step_raw H ct late true s o)).
+  Lemma step_raw_evolves s o : RInv s -> evolves s (fst (step_raw H ct late true s o)).
   Proof.
-    intro Hs. pose proof (evolves_refl s Hs) as Hrefl.
-    destruct o as [dst c og ps ks|dst src|dst src ch|dst src ch|x|x|v|x k]; simpl.
+    intros HR. pose proof HR as [Hs Hreg]. pose proof (evolves_refl s Hs) as Hrefl.
+    destruct o as [dst c og ps ks|dst src|dst src ch|dst src ch|x|x|v|x k|src slot|slot dst]; simpl.
     - destruct (negb _); [exact Hrefl|]. destruct (new_args ct s c ps ks) as [| |ks'] eqn:En; try exact Hrefl.
       destruct (construct H ct late s c og ps ks') as [s' a|s'|] eqn:Eco; [| |exact Hrefl]; simpl.
       + apply construct_ok in Eco as [Ea _]. eapply alloc_evolves; eauto. eapply new_args_reach; eauto.
@@ -255,7 +272,7 @@ Section Evolve2.
     - destruct (negb _); [exact Hrefl|]. destruct (resolve s src) as [a|]; [|exact Hrefl].
       pose proof (dup_spec_gen H ct late (length (heap s)) s a Hs) as M.
       destruct (dup H ct late (length (heap s)) s a) as [s' a'|s'|]; [| |exact Hrefl]; simpl.
-      + destruct M as [Hs' [G Ha']]. apply evolves_bind; [now apply growR_evolves|lia].
+      + destruct M as [Hs' [G Ha']]. apply evolves_bind; [now apply growR_evolves|intro; lia].
       + destruct M as [Hs' G]. now apply growR_evolves.
     - destruct (negb _); [exact Hrefl|]. destruct (resolve s src) as [a|] eqn:Er; [|exact Hrefl].
       destruct (cell_at s a) as [c|] eqn:Ec; [|exact Hrefl].
@@ -278,6 +295,14 @@ Section Evolve2.
       apply same_heap_evolves; auto; [now apply inv_wf|]. intro r. unfold roots. now rewrite Hv.
     - apply same_heap_evolves; auto; [now apply inv_wf|]. apply roots_drop.
     - destruct (resolve s x); exact Hrefl.
+    - destruct (resolve s src) as [a|]; [|exact Hrefl]. destruct (ser_st s a); [|exact Hrefl]. simpl.
+      apply same_heap_evolves; [reflexivity|now apply inv_wf|intros r Hr; exact Hr].
+    - destruct (negb _); [exact Hrefl|]. destruct (slot_get slot (slots s)) as [v|]; [|exact Hrefl].
+      pose proof (deser_spec H ct late s Hs (S (sdepth v)) s v (DP_refl s Hs)) as M. unfold asobj.
+      destruct (deser H ct late true (S (sdepth v)) s v) as [s' a|s'|]; [| |exact Hrefl]; simpl.
+      + destruct M as [Hd [_ Hq]]. apply evolves_bind; [now apply DP_evolves|].
+        intro Hlt. destruct (proj2 Hq Hlt) as [j Hj]. apply reachable_reach. eauto.
+      + apply DP_evolves; auto. apply M.
   Qed.
 
   Lemma dc_replace_gone s a ch s' r : dc_replace H ct late s a ch = (s', r) -> gone s' = gone s.
@@ -302,7 +327,7 @@ Section Evolve2.
 
   Lemma step_raw_gone s o : Inv0 s -> gone (fst (step_raw H ct late true s o)) = gone s.
   Proof.
-    intro Hs. destruct o as [dst c og ps ks|dst src|dst src ch|dst src ch|x|x|v|x k]; simpl; auto.
+    intro Hs. destruct o as [dst c og ps ks|dst src|dst src ch|dst src ch|x|x|v|x k|src slot|slot dst]; simpl; auto.
     - destruct (negb _); auto. destruct (new_args ct s c ps ks) as [| |ks']; auto.
       destruct (construct H ct late s c og ps ks') as [s' a|s'|] eqn:Eco; auto; simpl.
       + apply construct_ok in Eco as [Ea _]. apply alloc_shape in Ea as [i [_ [_ [_ ->]]]]. reflexivity.
@@ -322,6 +347,10 @@ Section Evolve2.
     - destruct (resolve s x) as [a|]; auto. destruct (detach_self_frame true s a) as [_ [_ Hg]].
       destruct (detach_self true s a). exact Hg.
     - destruct (resolve s x); auto.
+    - destruct (resolve s src) as [a|]; auto. destruct (ser_st s a); auto.
+    - destruct (negb _); auto. destruct (slot_get slot (slots s)) as [v|]; auto.
+      pose proof (deser_spec H ct late s Hs (S (sdepth v)) s v (DP_refl s Hs)) as M. unfold asobj.
+      destruct (deser H ct late true (S (sdepth v)) s v) as [s' a|s'|]; auto; simpl; destruct M as [Hd _]; apply Hd.
   Qed.
 
   (* the strengthened invariant: what a collection once found unreachable is unreachable now *)
@@ -333,7 +362,7 @@ Section Evolve2.
   Theorem step_invS s o : RInvS s -> RInvS (fst (step H ct late true s o)).
   Proof.
     intros [[Hs Hr] Hg]. split; [apply step_inv0; auto|].
-    unfold step. pose proof (step_raw_evolves s o Hs) as Hev. pose proof (step_raw_gone s o Hs) as Hgo.
+    unfold step. pose proof (step_raw_evolves s o (conj Hs Hr)) as Hev. pose proof (step_raw_gone s o Hs) as Hgo.
     destruct (step_raw H ct late true s o) as [s2 r]. simpl in *.
     intros a Ha. apply filter_In in Ha as [Hseq Hor].
     destruct (memb a (reachable_set s2)) eqn:Em; [|exact Em]. simpl in Hor.
